@@ -127,7 +127,7 @@ Definition check_C18 (ts : list N) : list N :=
   match ts with
   | 1 :: r => check_schema r
   | 2 :: r => match check_pool 18 r with
-              | [0; mask] => [0; 100 + N.land mask 32]     (* 132: the history contained a restart *)
+              | [0; mask] => [0; 100 + N.land mask 96]     (* +32: the history contained a restart, +64: a kill *)
               | v => v
               end
   | _ => v_bad
